@@ -10,9 +10,11 @@ use bytes::BytesMut;
 use domain::base::iana::{Class, OptionCode, Rtype};
 use domain::base::message_builder::{
     AdditionalBuilder, AnswerBuilder, AuthorityBuilder, HashCompressor,
-    MessageBuilder, QuestionBuilder, StaticCompressor, StreamTarget,
-    TreeCompressor,
+    MessageBuilder, QuestionBuilder, RecordSectionBuilder, StaticCompressor,
+    StreamTarget, TreeCompressor,
 };
+use domain::base::record::ComposeRecord;
+use domain::base::{Question, Record};
 use domain::base::name::{Name, ParsedName};
 use domain::base::rdata::{ComposeRecordData, ParseRecordData};
 use domain::base::wire::Composer;
@@ -409,12 +411,33 @@ pub fn library_reparse(b: &[u8], acc: &[(u8, Item)]) -> Result<(), String> {
 
 //------------ targets ---------------------------------------------------------
 
-pub trait Tgt: Composer {
+pub trait Tgt: Composer + Sized {
     fn fresh() -> Self;
     /// for stream targets: the complete stream slice (prefix + message)
     fn stream_slice(&self) -> Option<&[u8]>;
+    /// finish through `into_message()` / `Message::from(builder)` where the
+    /// target can be frozen (the bare Vec, BytesMut and Array targets)
+    fn finish_via_message(b: B<Self>, _from: bool) -> Result<Vec<u8>, B<Self>> {
+        Err(b)
+    }
+}
+
+macro_rules! freezing {
+    () => {
+        fn finish_via_message(b: B<Self>, from: bool) -> Result<Vec<u8>, B<Self>> {
+            Ok(match b {
+                B::M(x) => if from { Message::from(x) } else { x.into_message() }.as_slice().to_vec(),
+                B::Q(x) => if from { Message::from(x) } else { x.into_message() }.as_slice().to_vec(),
+                B::An(x) => if from { Message::from(x) } else { x.into_message() }.as_slice().to_vec(),
+                B::Au(x) => if from { Message::from(x) } else { x.into_message() }.as_slice().to_vec(),
+                B::Ad(x) => if from { Message::from(x) } else { x.into_message() }.as_slice().to_vec(),
+                B::Gone => panic!("builder used after finish"),
+            })
+        }
+    };
 }
 impl Tgt for Vec<u8> {
+    freezing!();
     fn fresh() -> Self {
         Vec::new()
     }
@@ -423,6 +446,7 @@ impl Tgt for Vec<u8> {
     }
 }
 impl Tgt for BytesMut {
+    freezing!();
     fn fresh() -> Self {
         BytesMut::new()
     }
@@ -431,6 +455,7 @@ impl Tgt for BytesMut {
     }
 }
 impl Tgt for Array<512> {
+    freezing!();
     fn fresh() -> Self {
         Array::new()
     }
@@ -485,7 +510,7 @@ impl<T: Tgt> Tgt for HashCompressor<T> {
 
 //------------ the driver ------------------------------------------------------
 
-enum B<T> {
+pub enum B<T> {
     M(MessageBuilder<T>),
     Q(QuestionBuilder<T>),
     An(AnswerBuilder<T>),
@@ -508,7 +533,17 @@ macro_rules! each {
 }
 
 /// What the bins see: one object per (compressor, target) combination.
+///
+/// Every call can be made through several public entry points of the
+/// library (inherent `push` with a `Record`, a reference, the tuple forms,
+/// `push_ref`, the `RecordSectionBuilder` trait; section changes through
+/// the conversion methods or the `From` impls; the limit through `Deref`,
+/// `as_builder_mut` or `AsMut`; octets through `as_slice`, `AsRef`,
+/// `as_builder`, `as_message`; finish through `finish`, `into_target`,
+/// `into_message`, `Message::from`).  `set_route` selects which one the
+/// following calls use; the specification's action is the same for all.
 pub trait Drive {
+    fn set_route(&mut self, route: u32);
     fn section(&self) -> u8;
     fn goto(&mut self, s: u8);
     fn rewind(&mut self);
@@ -526,6 +561,7 @@ pub trait Drive {
 
 pub struct Driver<T: Tgt> {
     b: B<T>,
+    route: u32,
 }
 
 impl<T: Tgt> Driver<T> {
@@ -534,7 +570,7 @@ impl<T: Tgt> Driver<T> {
             Ok(b) => b,
             Err(_) => panic!("from_target failed"),
         };
-        Driver { b: B::M(b) }
+        Driver { b: B::M(b), route: 0 }
     }
 }
 
@@ -560,32 +596,83 @@ pub fn valid_item(it: &Item) -> bool {
     }
 }
 
-fn push_record(
-    it: &Item,
-    f: &mut dyn FnMut(
-        &(Name<Vec<u8>>, Class, Ttl, AllRecordData<&[u8], ParsedName<&[u8]>>),
-    ) -> bool,
-) -> bool {
-    let owner = name_of(&it.name).expect("valid owner");
-    let plain = plain_rdata(it);
-    let mut parser = Parser::from_ref(&plain[..]);
-    let data = AllRecordData::<&[u8], ParsedName<&[u8]>>::parse_rdata(
-        Rtype::from_int(it.rtype),
-        &mut parser,
-    )
-    .expect("record data of the item parses")
-    .expect("AllRecordData takes every type");
-    assert!(parser.remaining() == 0, "record data of the item parsed completely");
-    let rec = (
-        owner,
-        Class::from_int(it.class),
-        Ttl::from_secs(u32::from_be_bytes(it.ttl)),
-        data,
-    );
-    f(&rec)
+/// the section-generic route: only the trait method is visible here
+fn via_trait<T: Composer, S: RecordSectionBuilder<T>>(s: &mut S, r: impl ComposeRecord) -> bool {
+    s.push(r).is_ok()
+}
+
+/// push one record through the entry point selected by `$route`;
+/// `$pushref` says whether the builder has `push_ref`
+macro_rules! push_routes {
+    ($T:ty, $b:expr, $it:expr, $route:expr, $pushref:tt) => {{
+        let it: &Item = $it;
+        let owner = name_of(&it.name).expect("valid owner");
+        let plain = plain_rdata(it);
+        let mut parser = Parser::from_ref(&plain[..]);
+        let data = AllRecordData::<&[u8], ParsedName<&[u8]>>::parse_rdata(
+            Rtype::from_int(it.rtype),
+            &mut parser,
+        )
+        .expect("record data of the item parses")
+        .expect("AllRecordData takes every type");
+        assert!(parser.remaining() == 0, "record data of the item parsed completely");
+        let class = Class::from_int(it.class);
+        let secs = u32::from_be_bytes(it.ttl);
+        let ttl = Ttl::from_secs(secs);
+        let is_in = it.class == 1;
+        match $route % 9 {
+            0 => $b.push(&(owner, class, ttl, data)).is_ok(),
+            1 => $b.push(Record::new(owner, class, ttl, data)).is_ok(),
+            2 => {
+                let r = Record::new(owner, class, ttl, data);
+                $b.push(&r).is_ok()
+            }
+            3 => $b.push((owner, class, secs, data)).is_ok(),
+            4 if is_in => $b.push((owner, secs, data)).is_ok(),
+            5 if is_in => $b.push((&owner, ttl, &data)).is_ok(),
+            6 => via_trait::<$T, _>($b, (owner, class, ttl, data)),
+            7 => {
+                let r = Record::new(owner, class, ttl, data);
+                via_trait::<$T, _>($b, &r)
+            }
+            8 => {
+                let r = Record::new(owner, class, ttl, data);
+                push_routes!(@pushref $T, $b, r, $pushref)
+            }
+            _ => $b.push((owner, class, ttl, data)).is_ok(),
+        }
+    }};
+    (@pushref $T:ty, $b:expr, $r:expr, yes) => { $b.push_ref(&$r).is_ok() };
+    (@pushref $T:ty, $b:expr, $r:expr, no) => { via_trait::<$T, _>($b, $r) };
+}
+
+/// compose the options of an OPT item through push_raw_option
+fn raw_options<X: Composer>(
+    o: &mut domain::base::message_builder::OptBuilder<'_, X>,
+    class: u16,
+    ttl: [u8; 4],
+    rd: &[u8],
+) -> Result<(), X::AppendError> {
+    o.set_udp_payload_size(class);
+    o.set_version(ttl[1]);
+    o.set_dnssec_ok(ttl[2] & 0x80 != 0);
+    // the data is a sequence of options: code, length, value
+    let mut p = 0;
+    while p + 4 <= rd.len() {
+        let code = u16::from_be_bytes([rd[p], rd[p + 1]]);
+        let len = u16::from_be_bytes([rd[p + 2], rd[p + 3]]) as usize;
+        let val = &rd[p + 4..p + 4 + len];
+        o.push_raw_option(OptionCode::from_int(code), len as u16, |t| t.append_slice(val))?;
+        p += 4 + len;
+    }
+    Ok(())
 }
 
 impl<T: Tgt> Drive for Driver<T> {
+    fn set_route(&mut self, route: u32) {
+        self.route = route;
+    }
+
     fn section(&self) -> u8 {
         match self.b {
             B::M(_) => 0,
@@ -599,13 +686,24 @@ impl<T: Tgt> Drive for Driver<T> {
 
     fn goto(&mut self, s: u8) {
         let old = std::mem::replace(&mut self.b, B::Gone);
-        self.b = each!(old, b => match s {
-            0 => B::M(b.builder()),
-            1 => B::Q(b.question()),
-            2 => B::An(b.answer()),
-            3 => B::Au(b.authority()),
-            _ => B::Ad(b.additional()),
-        });
+        self.b = if self.route % 2 == 0 {
+            each!(old, b => match s {
+                0 => B::M(b.builder()),
+                1 => B::Q(b.question()),
+                2 => B::An(b.answer()),
+                3 => B::Au(b.authority()),
+                _ => B::Ad(b.additional()),
+            })
+        } else {
+            // the From impls (and the reflexive one of the standard library)
+            each!(old, b => match s {
+                0 => B::M(MessageBuilder::from(b)),
+                1 => B::Q(QuestionBuilder::from(b)),
+                2 => B::An(b.into()),
+                3 => B::Au(AuthorityBuilder::from(b)),
+                _ => B::Ad(b.into()),
+            })
+        };
     }
 
     fn rewind(&mut self) {
@@ -619,48 +717,72 @@ impl<T: Tgt> Drive for Driver<T> {
     }
 
     fn set_limit(&mut self, limit: Option<usize>) {
-        match limit {
-            Some(n) => each!(&mut self.b, b => b.set_push_limit(n)),
-            None => each!(&mut self.b, b => b.clear_push_limit()),
+        macro_rules! on {
+            ($m:expr) => {
+                match limit {
+                    Some(n) => $m.set_push_limit(n),
+                    None => $m.clear_push_limit(),
+                }
+            };
         }
+        let route = self.route % 3;
+        match &mut self.b {
+            B::M(b) => on!(b),
+            B::Q(b) => match route { 0 => on!(b), 1 => on!(b.as_builder_mut()),
+                                     _ => on!(AsMut::<MessageBuilder<T>>::as_mut(b)) },
+            B::An(b) => match route { 0 => on!(b), 1 => on!(b.as_builder_mut()),
+                                      _ => on!(AsMut::<MessageBuilder<T>>::as_mut(b)) },
+            B::Au(b) => match route { 0 => on!(b), 1 => on!(b.as_builder_mut()),
+                                      _ => on!(AsMut::<MessageBuilder<T>>::as_mut(b)) },
+            B::Ad(b) => match route { 0 => on!(b), 1 => on!(b.as_builder_mut()),
+                                      _ => on!(AsMut::<MessageBuilder<T>>::as_mut(b)) },
+            B::Gone => panic!("builder used after finish"),
+        }
+        let got = each!(&self.b, b => b.push_limit());
+        assert!(got == limit, "push_limit() does not return the limit that was set");
     }
 
     fn push(&mut self, it: &Item) -> bool {
+        let route = self.route;
         match &mut self.b {
             B::Q(b) => {
                 assert!(it.question);
                 let n = name_of(&it.name).expect("valid qname");
-                b.push((n, Rtype::from_int(it.rtype), Class::from_int(it.class)))
-                    .is_ok()
+                let t = Rtype::from_int(it.rtype);
+                let c = Class::from_int(it.class);
+                match route % 5 {
+                    0 => b.push((n, t, c)).is_ok(),
+                    1 => b.push(Question::new(n, t, c)).is_ok(),
+                    2 => {
+                        let q = Question::new(n, t, c);
+                        b.push(&q).is_ok()
+                    }
+                    3 if it.class == 1 => b.push((n, t)).is_ok(),
+                    _ => b.push(&(&n, t, c)).is_ok(),
+                }
             }
-            B::An(b) => push_record(it, &mut |r| b.push(r).is_ok()),
-            B::Au(b) => push_record(it, &mut |r| b.push(r).is_ok()),
+            B::An(b) => push_routes!(T, b, it, route, yes),
+            B::Au(b) => push_routes!(T, b, it, route, no),
             B::Ad(b) => {
                 if it.rtype == 41 {
                     assert!(it.name.is_empty());
                     let rd = plain_rdata(it);
                     let ttl = it.ttl;
                     let class = it.class;
-                    b.opt(|o| {
-                        o.set_udp_payload_size(class);
-                        o.set_version(ttl[1]);
-                        o.set_dnssec_ok(ttl[2] & 0x80 != 0);
-                        // the data is a sequence of options: code, length, value
-                        let mut p = 0;
-                        while p + 4 <= rd.len() {
-                            let code = u16::from_be_bytes([rd[p], rd[p + 1]]);
-                            let len = u16::from_be_bytes([rd[p + 2], rd[p + 3]]) as usize;
-                            let val = &rd[p + 4..p + 4 + len];
-                            o.push_raw_option(OptionCode::from_int(code), len as u16, |t| {
-                                t.append_slice(val)
-                            })?;
-                            p += 4 + len;
-                        }
-                        Ok(())
-                    })
-                    .is_ok()
+                    if route % 2 == 0 {
+                        b.opt(|o| raw_options(o, class, ttl, &rd)).is_ok()
+                    } else {
+                        // OptBuilder::clone_from an OPT record read from another message
+                        let mut scratch = MessageBuilder::new_vec().additional();
+                        scratch
+                            .opt(|o| raw_options(o, class, ttl, &rd))
+                            .expect("scratch OPT");
+                        let msg = scratch.into_message();
+                        let rec = msg.opt().expect("scratch message has an OPT record");
+                        b.opt(|o| o.clone_from(&rec)).is_ok()
+                    }
                 } else {
-                    push_record(it, &mut |r| b.push(r).is_ok())
+                    push_routes!(T, b, it, route, no)
                 }
             }
             _ => panic!("push without a section"),
@@ -668,20 +790,49 @@ impl<T: Tgt> Drive for Driver<T> {
     }
 
     fn octets(&self) -> Vec<u8> {
-        each!(&self.b, b => b.as_slice().to_vec())
+        match self.route % 4 {
+            0 => each!(&self.b, b => b.as_slice().to_vec()),
+            1 => each!(&self.b, b => <_ as AsRef<[u8]>>::as_ref(b).to_vec()),
+            2 => each!(&self.b, b => b.as_message().as_slice().to_vec()),
+            _ => match &self.b {
+                B::M(b) => b.as_slice().to_vec(),
+                B::Q(b) => b.as_builder().as_slice().to_vec(),
+                B::An(b) => b.as_builder().as_slice().to_vec(),
+                B::Au(b) => b.as_builder().as_slice().to_vec(),
+                B::Ad(b) => b.as_builder().as_slice().to_vec(),
+                B::Gone => panic!("builder used after finish"),
+            },
+        }
     }
     fn len(&self) -> usize {
         each!(&self.b, b => b.as_slice().len())
     }
     fn counts(&self) -> [u16; 4] {
-        let c = each!(&self.b, b => b.counts());
+        let c = if self.route % 2 == 0 {
+            each!(&self.b, b => b.counts())
+        } else {
+            each!(&self.b, b => b.as_message().header_counts())
+        };
         [c.qdcount(), c.ancount(), c.nscount(), c.arcount()]
     }
     fn stream(&self) -> Option<Vec<u8>> {
         each!(&self.b, b => b.as_target().stream_slice().map(|s| s.to_vec()))
     }
     fn finish(&mut self) -> (Vec<u8>, Option<Vec<u8>>) {
-        let old = std::mem::replace(&mut self.b, B::Gone);
+        let mut old = std::mem::replace(&mut self.b, B::Gone);
+        match self.route % 4 {
+            1 | 2 => match T::finish_via_message(old, self.route % 4 == 2) {
+                Ok(octets) => return (octets, None),
+                Err(b) => old = b,
+            },
+            3 => {
+                if let B::An(b) = old {
+                    let t = b.into_target();
+                    return (t.as_ref().to_vec(), t.stream_slice().map(|s| s.to_vec()));
+                }
+            }
+            _ => {}
+        }
         let t: T = each!(old, b => b.finish());
         (t.as_ref().to_vec(), t.stream_slice().map(|s| s.to_vec()))
     }
